@@ -9,7 +9,7 @@
          only, never delta on arithmetic or data);
       3. destructs an innermost scrutinee occurring in the goal, one at a time, and loops;
     and closes each leaf by reflexivity, or by [lia] when the two sides spell a test differently. *)
-From Coq Require Import ZArith List Bool Lia ZifyBool.
+From Coq Require Import ZArith List Bool Lia ZifyBool Btauto.
 From HV Require Import Prelude.Py Prelude.State Prelude.Utf8 Prelude.PyExtra.
 From HV Require Gen.GData Gen.GInt Gen.GTable Gen.GHuff.
 From HV Require Model.Data Model.Int Model.Table Model.HuffEnc Model.HuffDec Model.Decoder Model.Encoder.
@@ -69,16 +69,62 @@ Ltac expose :=
   cbv beta iota zeta delta [bind mbind sbind nbind catch Encoder.lift_tab fst snd map_ctl map_lres
                             Decoder.h_name Decoder.h_value Decoder.h_class].
 
+(** * Equalities up to arithmetic *)
+Lemma len_nonneg_ {A} (l : list A) : 0 <= len l.
+Proof. unfold len. lia. Qed.
+
+(** [0 <= len l] for the lengths in sight (an emptiness test may be spelled [len l >? 0]) *)
+Ltac len_facts :=
+  repeat match goal with
+  | |- context [len ?l] =>
+      lazymatch goal with _ : 0 <= len l |- _ => fail | _ => pose proof (len_nonneg_ l) end
+  | _ : context [len ?l] |- _ =>
+      lazymatch goal with _ : 0 <= len l |- _ => fail | _ => pose proof (len_nonneg_ l) end
+  end.
+
+Ltac zleaf := len_facts; solve [ lia | btauto | (norm_cmp; lia) | apply Z.land_comm | apply Z.lor_comm | apply Z.lxor_comm ].
+
+(** [a = b] when a and b have the same shape down to integer / boolean sub-terms that are equal by
+    arithmetic: congruence first (so that an integer inside an uninterpreted term is found), [lia] or
+    [btauto] at the outermost position where the shapes differ. *)
+Ltac zcong :=
+  lazymatch goal with
+  | |- ?a = ?a => reflexivity
+  | |- @eq ?T _ _ =>
+      first [ solve [ progress f_equal; zcong ]
+            | lazymatch T with Z => zleaf | bool => zleaf | nat => zleaf end ]
+  end.
+
+Ltac same_head a b := let ha := head_of a in let hb := head_of b in constr_eq ha hb.
+Ltac differ a b := tryif constr_eq a b then fail else idtac.
+Ltac no_match x := lazymatch x with context [match _ with _ => _ end] => fail | _ => idtac end.
+
+(** x is about to be analysed: something equal to it up to arithmetic was analysed before *)
+Ltac sync_hyp x :=
+  match goal with
+  | H : ?y = _ |- _ =>
+      differ x y; same_head x y;
+      let E := fresh in assert (E : x = y) by zcong; rewrite E; clear E; rewrite H
+  end.
+(** ... or is another scrutinee of the goal, which is rewritten into x *)
+Ltac sync_goal x :=
+  repeat match goal with
+  | |- context [match ?y with _ => _ end] =>
+      differ x y; same_head x y; no_match y;
+      let E := fresh in assert (E : y = x) by zcong; rewrite E; clear E
+  end.
+
 (** destruct a scrutinee of the goal that contains no other match -- or, when its value is already
     known from an earlier case analysis (the two sides do not always show a scrutinee at the same
-    moment), rewrite with what is known *)
+    moment), rewrite with what is known.  Scrutinees that differ only by the spelling of an integer
+    or boolean sub-term ([a + b] / [b + a]) are identified first. *)
 Ltac break_match :=
   match goal with
   | |- context [match ?x with _ => _ end] =>
-      lazymatch x with
-      | context [match _ with _ => _ end] => fail
-      | _ => first [ match goal with H : x = _ |- _ => rewrite H end | destruct x eqn:? ]
-      end
+      no_match x;
+      first [ match goal with H : x = _ |- _ => rewrite H end
+            | sync_hyp x
+            | sync_goal x; destruct x eqn:? ]
   end.
 
 Ltac units := repeat match goal with u : unit |- _ => destruct u end.
@@ -101,7 +147,7 @@ Ltac leaf_hyps :=
 
 Ltac finish :=
   units; tidy; leaf_hyps;
-  solve [ reflexivity | congruence | (exfalso; lia) | (exfalso; congruence) | (repeat f_equal; lia) ].
+  solve [ reflexivity | congruence | (exfalso; len_facts; lia) | (exfalso; congruence) | zcong ].
 
 Ltac crush := repeat (expose; leaf; first [ finish | break_match ]).
 (** the same with the bridges of the callees (a tactic that rewrites with them where it can) *)
